@@ -165,9 +165,9 @@ func c10Baseline(i int) c10Obs {
 }
 
 type c10Spec struct {
-	Form string `json:"form"` // repeat, history, graph, cli
-	Run  int    `json:"run,omitempty"`
-	Seq  []int  `json:"seq,omitempty"`
+	Form  string   `json:"form"` // repeat, history, graph, cli
+	Run   int      `json:"run,omitempty"`
+	Seq   []int    `json:"seq,omitempty"`
 	Names []string `json:"names,omitempty"`
 }
 
